@@ -242,7 +242,12 @@ func diffGroup(a, b *types.Group) (string, string) {
 		case diffBytes(ah.CreateBlockHash, bh.CreateBlockHash):
 			return "Header.CreateBlockHash", fmt.Sprintf("%#v != %#v", ah.CreateBlockHash, bh.CreateBlockHash)
 		case diffTime(ah.BeginTime, bh.BeginTime):
-			return "Header." + timeField("BeginTime", ah.BeginTime), timeJSON(ah.BeginTime) + " / " + timeJSON(bh.BeginTime)
+			name := timeField("BeginTime", ah.BeginTime)
+			if _, err := ah.BeginTime.MarshalBinary(); err != nil {
+				// GroupToPbHeader drops the error of Time.MarshalBinary and sends no BeginTime at all
+				return "Header.BeginTime-marshal-error-ignored", timeJSON(ah.BeginTime) + " / " + timeJSON(bh.BeginTime) + " (" + err.Error() + ")"
+			}
+			return "Header." + name, timeJSON(ah.BeginTime) + " / " + timeJSON(bh.BeginTime)
 		case ah.MemberRoot != bh.MemberRoot:
 			return "Header.MemberRoot", ""
 		case ah.CreateHeight != bh.CreateHeight:
